@@ -43,7 +43,7 @@ LDFLAGS_V := -fsanitize=thread $(foreach w,$(API_WRAPS),-Wl,--wrap=$(w))
 endif
 
 H_SRCS := $(wildcard src/*.cc)
-H_OBJS := $(patsubst src/%.cc,$(B)/h/%.o,$(H_SRCS))
+H_OBJS := $(patsubst src/%.cc,$(B)/h/%.o,$(H_SRCS)) $(B)/h/logfmt_glue.o
 
 WRAPS := open close read pread write lseek fsync fdatasync rename unlink link mkdir rmdir stat fstat access opendir readdir closedir mmap munmap fcntl getrlimit gettimeofday select fdopen \
          pthread_mutex_init pthread_mutex_destroy pthread_mutex_lock pthread_mutex_unlock pthread_cond_init pthread_cond_destroy pthread_cond_wait pthread_cond_signal pthread_cond_broadcast pthread_create pthread_join pthread_detach
@@ -54,6 +54,11 @@ all: $(B)/lsim
 $(B)/lcdb/%.o: $(REPO)/src/%.c $(LDB_HDRS)
 	@mkdir -p $(dir $@)
 	$(CC) -std=c90 $(LDB_DEFS) $(LDB_CFLAGS) -w -I$(REPO)/include -I$(REPO)/src -c $< -o $@
+
+# glue over lcdb-internal headers: compiled like lcdb itself (instrumented in the tsan variant: it is lcdb-side code)
+$(B)/h/logfmt_glue.o: src/logfmt_glue.c $(LDB_HDRS)
+	@mkdir -p $(dir $@)
+	$(CC) -std=gnu99 $(LDB_DEFS) $(LDB_CFLAGS) -Wall -I$(REPO)/include -I$(REPO)/src -c $< -o $@
 
 $(B)/h/sched.o: src/sched.cc $(wildcard src/*.h)
 	@mkdir -p $(dir $@)
